@@ -142,21 +142,52 @@ def rule_vmprog(ctx, R, F):
         exp_seq.append(('readReg%d' % i, '(%d + (Q12 & 1))' % r0))
     R.eq('address registers (Table 4.5.3)', where, exp_seq, seq)
     # A registers: Table 4.5.2  fraction bits 0-51, exponent bits 59-63
+    from domains import KB, KBEval
+
+    def run(g, kb):
+        r = KBEval(F, {g['params'][0]['id']: kb}).run_body(g)
+        if r is None:
+            raise AnalysisBroken('SPEC-VMPROG: cannot evaluate %s' % g['q'])
+        return r
+
+    def routed(g, lo, n, what):
+        """entropy bits lo..lo+n-1 reach the same result bits unchanged, whatever the other entropy bits are (one unknown bit at a time, zero and one background)"""
+        bad = []
+        for k in range(lo, lo + n):
+            for bg in (0, (1 << 64) - 1):
+                kb = KB(64, ~bg & ((1 << 64) - 1) & ~(1 << k), bg & ~(1 << k))
+                r = run(g, kb)
+                if [i for i in range(64) if r.bit(i) is None] != [k]:
+                    bad.append(k)
+        R.check(not bad, what, '%s:%d' % (g['file'], g['line']), expected='entropy bit k -> result bit k for k in %d..%d' % (lo, lo + n - 1), found='mis-routed bits %s' % sorted(set(bad)) if bad else 'all routed')
+    # A registers: Table 4.5.2  fraction bits 0-51, exponent = 1023 + entropy bits 59-63 (so A lies in [1, 2^32)), sign 0
     g = F.func('randomx::getSmallPositiveFloatBits')
-    with astq.renaming({g['params'][0]['id']: 'E'}):
-        body = [showv(s) for s in g['body']['s']]
-    exp_b = ['unsigned long exponent = (E >> 59)', 'unsigned long mantissa = (E & 4503599627370495)', '(exponent += 1023)', '(exponent &= 2047)', '(exponent <<= 52)', 'return (exponent | mantissa)']
-    R.eq('group A bit fields (Table 4.5.2)', '%s:%d' % (g['file'], g['line']), exp_b, body)
-    # E masks: fraction bits 0-21, exponent bits 60-63 placed at exponent bits 4-7 over the constant 0b011....
+    okA = True
+    foundA = None
+    for e5 in range(32):
+        r = run(g, KB(64, (~(e5 << 59)) & (31 << 59), e5 << 59))
+        hi = [r.bit(i) for i in range(52, 64)]
+        want = 1023 + e5
+        if None in hi or sum(b << i for i, b in enumerate(hi)) != want:
+            okA = False
+            foundA = (e5, r.hexpat())
+            break
+    R.check(okA, 'group A exponent field (Table 4.5.2)', '%s:%d' % (g['file'], g['line']), expected='sign 0, exponent 1023 + (entropy >> 59)', found=foundA or 'as specified for all 32 values')
+    routed(g, 0, 52, 'group A fraction bits (Table 4.5.2)')
+    # E masks: fraction bits 0-21 from the entropy, exponent bits 60-63 placed at exponent bits 4-7 over the constant 0b011....
     g = F.func('randomx::getFloatMask')
-    with astq.renaming({g['params'][0]['id']: 'E'}):
-        rets = [showv(x['e']) for x in walk(g['body']) if x['k'] == 'Return']
-    R.eq('group E mask fraction bits (4.5.6)', '%s:%d' % (g['file'], g['line']), ['((E & 4194303) | randomx::getStaticExponent(E))'], rets)
-    g = F.func('randomx::getStaticExponent')
-    with astq.renaming({g['params'][0]['id']: 'E'}):
-        body = [showv(s) for s in g['body']['s']]
-    exp_b = ['unsigned long exponent = 768', '(exponent |= ((E >> 60) << 4))', '(exponent <<= 52)', 'return exponent']
-    R.eq('group E mask exponent bits (4.5.6 / 4.3.2)', '%s:%d' % (g['file'], g['line']), exp_b, body)
+    okE = True
+    foundE = None
+    for e4 in range(16):
+        r = run(g, KB(64, (~(e4 << 60)) & (15 << 60), e4 << 60))
+        hi = [r.bit(i) for i in range(22, 64)]
+        want = (0x300 | (e4 << 4)) << 30          # bits 22..63: 30 zero fraction bits, then the 12 sign/exponent bits
+        if None in hi or sum(b << i for i, b in enumerate(hi)) != want:
+            okE = False
+            foundE = (e4, r.hexpat())
+            break
+    R.check(okE, 'group E mask exponent bits (4.5.6 / 4.3.2)', '%s:%d' % (g['file'], g['line']), expected='bits 52-63 = 0x300 | (entropy >> 60) << 4, bits 22-51 zero', found=foundE or 'as specified for all 16 values')
+    routed(g, 0, 22, 'group E mask fraction bits (4.5.6)')
 
 
 def rule_regfile(ctx, R, F):
